@@ -617,6 +617,11 @@ fn verdict_position() -> BoxedStrategy<String> {
     };
     prop_oneof![
         3 => gen::terminal_biased(),
+        2 => (gen::pre_terminal(), 0u8..8).prop_map(|(fen, k)| {
+            let mut p = Pos::from_fen(&fen).unwrap();
+            p.half = if k == 7 { 99 } else { 0 };
+            p.fen()
+        }),
         4 => gen::cage_theme().prop_map(low_clock),
         4 => gen::pin_check_theme().prop_map(low_clock),
         2 => gen::ep_theme().prop_map(low_clock),
@@ -814,7 +819,7 @@ fn notation_position_inner() -> BoxedStrategy<String> {
         1 => gen::cage_theme().prop_map(|r| gen::build(&r).fen()),
         2 => gen::material_extreme().prop_map(|r| gen::build(&r).fen()),
         1 => gen::crowded_promo().prop_map(|r| gen::build(&r).fen()),
-        1 => gen::terminal_biased(),
+        2 => gen::pre_terminal(),
         2 => gen::placement(24).prop_map(|r| gen::build(&r).fen()),
         3 => gen::walk(60).prop_map(|w| gen::walk_end(&w).fen()),
     ]
